@@ -162,6 +162,8 @@ def exec : List Sexp → String
     match n.nat?, r.nat? with
     | some n, some r => if n = 0 ∨ r = 0 ∨ n > 100000 ∨ r > 50 then "bad-op" else "full"
     | _, _ => "bad-op"
+  | [.atom "forkview", .atom kind, .atom mode] =>   -- the specification: a forked routine sees the caller's context as it was AT THE CALL
+    if (kind == "fork" || kind == "go") && (mode == "gated" || mode == "free") then "loader:call var:call stack:call" else "bad-op"
   | [.atom "typerace", n, r] =>          -- free-running on the implementation side; on a correct tree the only answer
     match n.nat?, r.nat? with
     | some n, some r => if n = 0 ∨ r = 0 ∨ n > 200000 ∨ r > 50 then "bad-op" else "ok"
